@@ -108,3 +108,9 @@ package dstutil
 //@ trusted
 //@ attr params = c
 //@ modifies allbut(heap(application.pre); heap(application.post); heap(Cursor.parent); heap(Cursor.name); heap(Cursor.iter); heap(Cursor.node))
+
+// Apply returns the (possibly replaced) root: the value held by the synthetic parent at the end of the
+// traversal, whether the traversal ran to completion or was stopped by a post callback returning
+// false (the abort panic, recovered by the deferred function). Any other panic propagates.
+//@ func Apply
+//@ ensures returns_tree: result == parent.Node
